@@ -596,7 +596,7 @@ class Schema:
             p[0]["properties"].update({p_list[-3]: p_list[-1]})
 
     def set_auth_property_in_schema(self, p: List, p_list: List) -> None:
-        if p_list[2] == auth:
+        if p_list[2].upper() == auth:
             p[0] = {"schema_name": p_list[3], auth.lower(): p_list[3]}
         else:
             p[0] = {"schema_name": p_list[2], auth.lower(): p_list[-1]}
@@ -630,8 +630,11 @@ class Schema:
                 p[0]["comment"] = p_list[-1]
             else:
                 self.set_properties_for_schema_and_database(p, p_list)
-        elif auth in p_list:
-            auth_index = p_list.index(auth)
+        elif auth in [i.upper() for i in p_list if isinstance(i, str)]:
+            # the AUTHORIZATION keyword arrives as a plain id, in the case it was written in
+            auth_index = [
+                isinstance(i, str) and i.upper() == auth for i in p_list
+            ].index(True)
             self.set_auth_property_in_schema(p, p_list)
 
         if not p[0].get("schema_name") and isinstance(p_list[-1], str):
